@@ -5,6 +5,7 @@
 (*   MC_Pipeline        : programs of length <= 6 over the full alphabet     *)
 (*   MC_Pipeline_all    : EVERY program (no length bound): the abstract      *)
 (*                        state space is finite, n is hidden by a VIEW       *)
+(*   MC_Pipeline_all_quick : the same on two input classes                   *)
 (*   MC_Pipeline_devMethod / _devLayout : deviation switches - must FAIL     *)
 EXTENDS Pipeline
 MCDirs == {"A", "B"}
@@ -16,7 +17,8 @@ QuickMaxes == {"all", "one"}
 FullMethods == {"auto", "average", "majority", "stride"}
 QuickMethods == {"auto", "majority"}
 FullShardings == {"nosh", "s110"}
-FullCfg == {[perfect |-> TRUE], [perfect |-> FALSE]}
-QuickCfg == {[perfect |-> TRUE]}
+FullCfg == {[perfect |-> p, nall |-> k] : p \in BOOLEAN, k \in {1, 2, 3}}
+MidCfg == {[perfect |-> TRUE, nall |-> 3], [perfect |-> FALSE, nall |-> 2]}
+QuickCfg == {[perfect |-> TRUE, nall |-> 3]}
 ViewNoCount == <<cfg, dirs, prov>>
 =============================================================================
